@@ -5,7 +5,7 @@ patch="$1"; shift
 cd /repo || exit 2
 if ! git diff --quiet; then echo "/repo has local modifications"; exit 2; fi
 if ! git apply --3way "$patch" 2>/tmp/seed_apply.err && ! git apply "$patch" 2>>/tmp/seed_apply.err; then
-  echo "PATCH DOES NOT APPLY: $(head -3 /tmp/seed_apply.err)"; git checkout -q -- . ; exit 3
+  echo "PATCH DOES NOT APPLY: $(head -3 /tmp/seed_apply.err | tr '\n' ' ')"; git reset -q --hard HEAD; git clean -fdq -e target; exit 3
 fi
 git reset -q 2>/dev/null
 for id in "$@"; do
@@ -14,4 +14,4 @@ for id in "$@"; do
   echo "== $id exit=$rc violations=$nv"
   echo "$out" | grep -E '^VIOLATION|signature:' | head -6
 done
-git checkout -q -- . && git clean -fdq -e target
+git reset -q --hard HEAD && git clean -fdq -e target
